@@ -1137,11 +1137,13 @@ def hash_rules(run, r_accept, r_same, r_publish, r_checked, r_allids, ast):
         loops = _idloops(f)
         stores = [n for n in astq.walk(f["body"]) if (n.get("k") == "BinaryOperator" or (n.get("k") == "CXXOperatorCallExpr" and n.get("oop") == "=")) and n.get("op", "=") == "=" and any(
             (astq.refname(x) or "").endswith("::vptrs") for x in astq.walk((n["c"][0] if n.get("k") == "BinaryOperator" else n["c"][1])))]
-        inside = loops and stores and all(any(_in_subtree(lp[1]["body"], s) for lp in loops) for s in stores)
+        istores_ = [n for n in astq.walk(f["body"]) if (n.get("k") == "BinaryOperator" or (n.get("k") == "CXXOperatorCallExpr" and n.get("oop") == "=")) and n.get("op", "=") == "=" and any(
+            (astq.refname(x) or "").endswith("::indirect_vptrs") for x in astq.walk((n["c"][0] if n.get("k") == "BinaryOperator" else n["c"][1])))]
+        inside = loops and stores and all(any(_in_subtree(lp[1]["body"], s) for lp in loops) for s in stores + istores_)
         if r_allids:
             run.instance(r_allids, "%s publishes a v-table pointer for every id of every class" % short(f), (f["file"], f["line"]), ok=bool(inside))
             if not inside:
-                run.violation(r_allids, "%s|id-loops" % re.sub(r"<.*", "", short(f)), "v-table pointers are not stored inside a loop over type_id_begin()..type_id_end() of every class", (f["file"], f["line"]))
+                run.violation(r_allids, "%s|id-loops" % re.sub(r"<.*", "", short(f)), "v-table pointers (and, for an indirect policy, the addresses of the static v-table pointers) are not stored inside a loop over type_id_begin()..type_id_end() of every class: only some ids of a class reach its v-table", (f["file"], f["line"]))
         if "vptr_vector" in f["name"] and r_publish and "cfg" in f:
             rs = [n for n in astq.walk(f["body"]) if n.get("k") == "CXXMemberCallExpr" and (n.get("callee") or "").endswith("::resize") and any((astq.refname(x) or "").endswith("::vptrs") for x in astq.walk(n["c"][0]))]
             hi = [n for n in astq.walk(f["body"]) if n.get("k") == "CallExpr" and (n.get("callee") or "").endswith("hash_initialize") or (n.get("k") == "CallExpr" and "::hash_initialize<" in (n.get("callee") or ""))]
